@@ -1141,10 +1141,7 @@ class BMatrix(TwoPortMatrix):
     @classmethod
     def Tsection(cls, Z1, Z2, Z3):
 
-        Y = 1 / Z2
-        return cls(((1 + Y * Z3, -Z1 - Z3 * (1 + Y * Z1)),
-                    (-Y, 1 + Y * Z1)))
-        # return cls.Lsection(Z1, Z2).chain(cls.Zseries(Z3))
+        return cls.Lsection(Z1, Z2).chain(cls.Zseries(Z3))
 
     @classmethod
     def Pisection(cls, Z1, Z2, Z3):
@@ -3568,7 +3565,8 @@ class TwinTSection(TwoPortThing):
         _check_oneport_args((OP1a, OP2a, OP3a, OP1b, OP2b, OP3b))
         self.tp = TSection(OP1a, OP2a, OP3a).parallel(
             TSection(OP1b, OP2b, OP3b))
-        super(TwinTSection, self).__init__(self.tp)
+        super(TwinTSection, self).__init__(self.tp.Bparams, V2b=self.tp.V2b,
+                                           I2b=self.tp.I2b)
         self.args = (OP1a, OP2a, OP3a, OP1b, OP2b, OP3b)
 
 
@@ -3597,7 +3595,8 @@ class BridgedTSection(TwoPortThing):
 
         _check_oneport_args((OP1, OP2, OP3, OP4))
         self.tp = TSection(OP1, OP2, OP3).parallel(Series(OP4))
-        super(BridgedTSection, self).__init__(self.tp)
+        super(BridgedTSection, self).__init__(self.tp.Bparams, V2b=self.tp.V2b,
+                                              I2b=self.tp.I2b)
         self.args = (OP1, OP2, OP3, OP4)
 
 
